@@ -73,7 +73,8 @@ func (s *SimpleAuthCtx) check(streamName string, urlParam string) error {
 	v = strings.ToLower(v)
 
 	// 注意，只有DangerousLalSecret配置了值，才验证参数是否和DangerousLalSecret相等
-	if len(s.config.DangerousLalSecret) != 0 && v == s.config.DangerousLalSecret {
+	// v已经转为小写，所以配置值也转为小写后再比较，否则包含大写字母的DangerousLalSecret永远无法匹配
+	if len(s.config.DangerousLalSecret) != 0 && v == strings.ToLower(s.config.DangerousLalSecret) {
 		return nil
 	}
 
